@@ -131,6 +131,32 @@ let handle (toks : string list) : string =
                  (if a.a_bounceable then 1 else 0) (if a.a_test_only then 1 else 0) (hex_of_z (address_pyhash a)))
   | ["addr_str"; wc; h; f; u; b; t] ->
     show_res hex_of_bytes (to_str (z_of_hex wc) (bytes_of_hex h) (f = "1") (u = "1") (b = "1") (t = "1"))
+  | "sigs" :: root :: file :: rest ->
+    (* sigs root file N pk:weight.. M id:sig.. K pk:sig.. (K = pairs the real verifier accepts) *)
+    let take l = match l with n :: r -> let n = int_of_string n in
+        let rec go k l acc = if k = 0 then (List.rev acc, l) else (match l with x :: r -> go (k-1) r (x :: acc) | [] -> failwith "sigs") in
+        go n r [] | [] -> failwith "sigs" in
+    let (ns, r1) = take rest in
+    let (ss, r2) = take r1 in
+    let (vs, _) = take r2 in
+    let pair t = match String.split_on_char ':' t with [a; b] -> (a, b) | _ -> failwith "pair" in
+    let nodes = List.map (fun t -> let (pk, w) = pair t in { v_pk = bytes_of_hex pk; v_weight = n_of_hex w }) ns in
+    let sigs = List.map (fun t -> let (id, sg) = pair t in (bytes_of_hex id, bytes_of_hex sg)) ss in
+    let valid = List.map (fun t -> let (pk, sg) = pair t in (bytes_of_hex pk, bytes_of_hex sg)) vs in
+    let verify pk _ sg = List.mem (pk, sg) valid in
+    (match check_block_signatures sha256 verify nodes sigs (bytes_of_hex root) (bytes_of_hex file) with
+     | Ok _ -> "ok" | Err e -> "err " ^ err_name e)
+  | ["nodeid"; pk] -> hex_of_bytes (node_id_short sha256 (bytes_of_hex pk))
+  | ["adnl"; shared; ida; idb; msg] ->
+    (* observables of AdnlChannel(local id = ida, peer id = idb) given the ECDH result *)
+    let dh _ _ = bytes_of_hex shared in
+    let ch = mk_channel sha256 dh [] [] (bytes_of_hex ida) (bytes_of_hex idb) in
+    let m = bytes_of_hex msg in
+    let cs = sha256 m in
+    let show = function Ok (k, iv) -> hex_of_bytes k ^ "/" ^ hex_of_bytes iv | Err e -> "err" in
+    Printf.sprintf "enc=%s dec=%s cid=%s sid=%s cs=%s ekiv=%s dkiv=%s"
+      (hex_of_bytes ch.enc_key) (hex_of_bytes ch.dec_key) (hex_of_bytes ch.client_key_id)
+      (hex_of_bytes ch.server_key_id) (hex_of_bytes cs) (show (cipher_params ch.enc_key cs)) (show (cipher_params ch.dec_key cs))
   | "senc" :: rest ->
     let (ns, ops) = parse_dag rest in
     let trees = tree_of_dag ns in
